@@ -4,6 +4,9 @@ Q, T = "quick", "thorough"
 
 PROPS = {}
 
+# properties whose check is finished, validated and registered in MANIFEST.json (others may exist in props.d while in work)
+CLAIMED = ["C01", "C16"]
+
 # properties deliberately not claimed, with the reason (see DESIGN.md section 4)
 NOT_APPLICABLE = {}
 
